@@ -2,6 +2,50 @@
 """Regenerates MANIFEST.json from the table below (kept in one place so the file stays valid)."""
 import json
 checks = {
+ "C02": dict(level="model_checking", design="§4 C02",
+   text="Every nesting (depth <=2 quick, <=3 thorough) of 23 wrapping constructs around 11 spinning or blocked cores, each also as the last statement of the program, run on the real interpreter under the cooperative scheduler: every context poll and channel operation is a schedule point and 'cancel the context now' competes at each of them (and, for programs with goroutines, under every interleaving within the bound). After the cancellation the call must return 'execution interrupted', no statement probe may run, no thread may poll more than depth+2 times or stay blocked.",
+   note="'Short bounded time' is decided as a bound on interpreter steps (polls), not seconds. Non-terminating cores are loops of 22 iterations, far beyond every explored cancellation instant. When a select has both the cancelled context and a channel operation ready, either outcome is accepted (Go's select semantics). The callback hole (context.Background() in the func adapter) is listed case by case in known_findings.json.",
+   technique="stateless model checking of the implementation under a controlled scheduler with the cancellation as a pseudo-thread (exhaustive enumeration of cancellation instants and schedules, deviation bounded)"),
+ "C05": dict(level="exploration", design="§4 C05",
+   text="Exhaustive cross product of boundary operand pools (40 int64 incl. cache edges -2..4097, 2^31, 2^53, 2^63 edges; 28 float64 incl. ±0, ±Inf, NaN; strings) x 15 binary + 2 unary operators, operands supplied as literals, variables and sub-expression results (depth-2 trees quick, depth-3 thorough, plus a sweep producing every value -3..4098 as an operator result); value AND dynamic Go type compared with the same operation written with Go's own operators.",
+   note="Only operand-kind combinations the property defines are compared (no bool operands, no % on floats, no string ordering); values outside the pools are not covered.",
+   technique="bounded exhaustive enumeration of operator x operand-pool products against a Go-operator reference model"),
+ "C06": dict(level="exploration", design="§4 C06",
+   text="All ordered pairs of a 133/142-value pool (nil, bools, ints and floats of every magnitude class, decimal-numeral strings, lenient and non-numeral strings, nested untyped slices/maps) in the forms ==, !=, in, switch and <=&&>=; algebraic laws (symmetry, != negation, in/switch agree with ==) on every pair and the reference relation where the property defines it.",
+   note="Strings such as 1e3/inf/+1 are treated as under-determined numerals (laws only); element-wise int-vs-float comparison inside containers is not generated.",
+   technique="bounded exhaustive enumeration of ordered value pairs; law checking plus reference relation"),
+ "C07": dict(level="exploration", design="§4 C07",
+   text="3961 expression/statement templates (every binary operator, short-circuit forms with every truth/nil class, literals, index/slice/member, return lists, multi-assignment, in, len and every call path: script functions of 0-6 parameters, variadic, Go fixed/variadic, plain and spread calls, direct / go / defer / anonymous / via variable, all arity mismatches) whose leaves are side-effecting probes, failing leaf at every position (thorough: templates nested in each operand); the probe log must equal the log of a left-to-right reference evaluator.",
+   note="For calls rejected for a wrong argument count only the stated weaker guarantee (order-preserving, no repeats) is checked; order of RHS vs target operands of an assignment is not compared.",
+   technique="bounded exhaustive enumeration of probe-instrumented templates; reference evaluator traces replayed on the implementation"),
+ "C08": dict(level="exploration", design="§4 C08",
+   text="All control-flow spine programs up to nesting depth 2 (quick) / 3 (thorough): every branch/loop/switch/function/try construct nested in every construct, break/continue/return at every statement position, probes before/inside/after every construct, conditions over all truthiness classes; expected probe trace and result come from a definitional reference interpreter over a mini-IR (lib/ir) and are replayed on vm.ExecuteContext.",
+   note="Under-determined points (finally on catch exit / on try-body signal, loop scope per iteration, map order) are switches of the reference, every consistent resolution accepted. The known try-body-signal defect is listed case by case in known_findings.json.",
+   technique="bounded exhaustive program enumeration; reference-interpreter traces replayed on the implementation"),
+ "C09": dict(level="exploration", design="§4 C09",
+   text="All spines over try/catch/finally, function invocation, loop and branch to depth 2 (quick; thorough adds depth 3 with 0-1 defer) with 0-2/0-3 defer statements (probe, closure, throwing callee, callee that defers) and a failure point (throw, runtime error, return) at every statement position of try body, catch, finally, function body and deferred callee; trace, result and error-vs-success compared with the reference interpreter (nearest-try delivery, LIFO exactly-once defers, result preservation, error precedence).",
+   note="What a return inside a try body does is C08's known defect: C09 accepts either reading. Error messages are not compared except that a thrown value's text must appear in the caught error.",
+   technique="bounded exhaustive program enumeration; reference-interpreter traces replayed on the implementation"),
+ "C15": dict(level="exploration", design="§4 C15",
+   text="Every byte string of length <=3/<=4 over a 43-byte alphabet, every token string of length <=3/<=4 over the 81-token alphabet, every byte prefix of a 456-program grammar corpus, nesting to depth 10000, and every ordered pair of a 399/1500-program corpus: ParseSrc returns (no panic), errors are *parser.Error with line/column inside the input, re-parsing gives a structurally equal tree (no memory between calls), and A+newline+B parses to the concatenation with B's positions shifted by A's line count.",
+   note="Sequential part only; the 'also under concurrent calls' clause is decided separately by the token-granularity interleaving check listed in the evidence when present. Thorough token strings of length 4 may be cut by the soft deadline (evidence says exhaustive:false).",
+   technique="bounded exhaustive input enumeration with structural-dump oracle"),
+ "C16": dict(level="model_checking", design="§4 C16",
+   text="~260 pipeline programs (1-3 stages, channel capacities 0/1/2, typed and interface element types incl. values needing conversion, 1-3 items, three consumer forms, fan-in) plus closed-channel and go-argument facts, executed on the real interpreter under the cooperative scheduler: every schedule at channel granularity within preemption bound 2 (quick) / unbounded for 1-2 stages and bound 3 for 3 stages and fan-in (thorough); in every schedule the consumer returns exactly the sent sequence, no deadlock, error or panic.",
+   note="Trusts the channel shadow semantics of the scheduler (validated by free-running executions whose outcomes must lie in the explored outcome set) and the syntactic overlay rewrite of reflect.Select / Close / go statements.",
+   technique="stateless model checking of the implementation under a controlled scheduler (exhaustive schedule enumeration with preemption bounding) + conformance runs of the channel model"),
+ "C17": dict(level="exploration", design="§4 C17",
+   text="For every (parent node kind, child slot, child node kind) triple the grammar can produce (82 slots, 50 node kinds, 1412 triples) the smallest program containing it, plus statement kinds nested to depth 3 (thorough): astutil.Walk must present every node found by generic reflection over the tree, parents before children, return nil, and a callback failing at its i-th call (every i) must stop the walk at once with that error.",
+   note="Reference traversal is reflection over the parsed tree; extra synthetic nodes presented by Walk are tolerated.",
+   technique="bounded exhaustive enumeration of grammar slots with a reflection-based reference traversal"),
+ "C18": dict(level="exploration", design="§4 C18",
+   text="The real anko binary (built from the current tree each run) is executed on 118/1169 scripts x {file with 0-2 trailing args, -e, missing file, directory}; exit code (0/4/2), stdout and the single diagnostic line are compared with vm.Execute run in a child process on an environment prepared exactly as anko.go prepares it.",
+   note="Interactive mode is out of scope; the diagnostic line's text is not compared.",
+   technique="bounded exhaustive enumeration of script x invocation configurations, differential against the library"),
+ "C19": dict(level="exploration", design="§4 C19",
+   text="range over all 1-3 argument tuples of a boundary pool whose progression has <=1000 elements (in memory-capped child processes), keys over all maps of <=3 mixed keys, len/typeOf/kindOf/toX/typed-slice builtins over the whole script value universe and wrong argument counts, against the same computation done natively in Go; every one of the 595 entries of env.Packages / env.PackageTypes compared by code pointer / type identity / value with the Go symbol its key names.",
+   note="toInt of non-decimal spellings, toBool's mapping and a few formatting cases the property does not fix are not compared (listed in notes/C19.md).",
+   technique="bounded exhaustive input enumeration against native Go computations; complete table comparison"),
  "C13": dict(level="model_checking", design="§4 C13",
    text="All interleavings at lock-acquisition granularity (controlled cooperative scheduler over the rewritten sync.RWMutex of package env) of 2-3 threads x 1-2 env operations colliding on one key: every complete call/return history plus a final read is checked for linearizability against a sequential dictionary-chain spec (brute force, cross-checked by porcupine); deadlock detection; lockset monitor asserting every access to values/types happens under the scope's lock.",
    note="Trusts the RWMutex shadow semantics of the scheduler and the syntactic overlay rewrite (site counts asserted non-zero); memory-model effects below lock granularity are covered only by the lockset invariant; larger shapes use preemption bound 2 (stated in evidence).",
